@@ -227,10 +227,10 @@ theorem seqLikeWith_appends {pe : Bool → B → List Int → R (B × List Int)}
       obtain ⟨bs, _, h⟩ := (bind_ok _ _ _).1 h
       have hv : VLen v views.length := by simp only [WFB] at hwf; exact hwf.1
       obtain ⟨rfl, _⟩ := setValidity_ok hv h1
-      obtain ⟨d, extra, hp, hd⟩ := viewPushValue_spec views buf bs
-      rw [viewSeq_eq, hp] at h
+      obtain ⟨vp, hp, h⟩ := (bind_ok _ _ _).1 h
+      obtain ⟨d, extra, rfl, hd, hlen, _⟩ := viewSeq_ok hp
       cases h
-      have := view_step hwf true d extra hd
+      have := view_step hwf true d extra hd (hlen (view_buf_lt hwf))
       rw [rowOf_true] at this
       exact ⟨this.1, _, this.2⟩
     · simp [notSupported, fail] at h
